@@ -172,6 +172,10 @@ func (r *roundRobinSelector) AddNode(node *databasev1.Node) {
 	}
 	r.mu.Lock()
 	defer r.mu.Unlock()
+	// AddNode is also called for node updates: keep one entry per node.
+	if slices.Contains(r.nodes, node.Metadata.Name) {
+		return
+	}
 	r.nodes = append(r.nodes, node.Metadata.Name)
 	sort.StringSlice(r.nodes).Sort()
 }
